@@ -77,6 +77,31 @@ theorem apply_step (y : Sys) (g : Good y.s) (op : Op) (hp : op.plain = true) (ho
       · exact Step.refl g
       · rename_i hk
         exact (imul_step y g r (by simpa using hr) k hk).1
+  | addBoundary m t ext dlb dub =>
+    simp only [apply]
+    split
+    · exact Step.refl g
+    · rename_i hm
+      split
+      · exact Step.refl g
+      · split
+        · exact Step.refl g
+        · rename_i hnew
+          split
+          · exact Step.refl g
+          · rename_i hlt
+            split
+            · rename_i hcond
+              simp only [Bool.and_eq_true, decide_eq_true_eq] at hcond
+              have hnew' : y.s.hasR (t.rid m) = false := by simpa using hnew
+              have hle : EB.le (t.bounds dlb dub).1 (t.bounds dlb dub).2 = true := EB.not_lt_le (by simpa using hlt)
+              have hm' : y.s.hasM m = true := by simpa using hm
+              exact addRxn_step y g (t.rid m) _ _ [(m, -1)] hnew' hle hcond.1 (fresh_of_freshNames g.wf _ hcond.2)
+                (fun p hp => by
+                  simp only [List.mem_singleton] at hp
+                  subst hp
+                  exact hm')
+            · exact Step.refl g
   | observe => exact Step.refl g
   | enter => cases hp
   | exit => cases hp
